@@ -244,3 +244,76 @@ pub async fn record() {
     f.flush().unwrap();
     println!("{}", json!({"calls": calls, "later_checks": later_checks, "layouts": layouts.len()}));
 }
+
+
+/// what a node's storage holds for `id`: (timestamp, tombstone, digest of the bytes)
+async fn held_full(m: &Member, id: u64) -> Option<(u64, bool, String)> {
+    let meta = m.inner.iter_metadata(KS).await.unwrap().find(|e| e.0 == id)?;
+    let bytes = m.inner.get(KS, id).await.unwrap().map(|d| d.data().to_vec()).unwrap_or_default();
+    Some((meta.1.as_u64(), meta.2, format!("{}:{:x}", bytes.len(), bytes.iter().fold(0xcbf29ce484222325u64, |h, b| (h ^ *b as u64).wrapping_mul(0x100000001b3)))))
+}
+
+/// C01 at system level: real nodes, operations issued at level None through the public handles, so that the other
+/// nodes learn of them only through the real task distributor (and, if it gets to run, the real poller). Afterwards
+/// every node's storage must hold the same timestamp, the same kind and the same bytes for every document.
+pub async fn record_converge() {
+    let out = arg_or("--out", "converge.ndjson");
+    let rounds: u64 = arg_or("--rounds", "3").parse().unwrap();
+    let mut f = std::io::BufWriter::new(std::fs::File::create(&out).expect("create trace"));
+    let mut docs = 0u64;
+    for layout in [vec![3u64], vec![2, 1]] {
+        let members = start_cluster(&layout).await;
+        let a = members[0].store.handle_with_keyspace(KS);
+        let b = members[1].store.handle_with_keyspace(KS);
+        let mut ids: Vec<u64> = vec![];
+        for r in 0..rounds {
+            let base = 5000 + r * 100;
+            let lv = Consistency::None;
+            // the same id twice in one bulk write (one timestamp for the whole call): every node must end with the same bytes
+            a.put_many(vec![(base + 1, b"first revision".to_vec()), (base + 1, b"second revision".to_vec())], lv).await.expect("put_many");
+            a.put_many(vec![(base + 2, b"a".to_vec()), (base + 3, b"b".to_vec()), (base + 2, b"c".to_vec())], lv).await.expect("put_many");
+            // rewritten at once, and rewritten by another node
+            a.put(base + 4, b"one".to_vec(), lv).await.expect("put");
+            a.put(base + 4, b"two".to_vec(), lv).await.expect("put");
+            a.put(base + 5, b"from a".to_vec(), lv).await.expect("put");
+            b.put(base + 5, b"from b".to_vec(), lv).await.expect("put");
+            // bulk write then bulk delete of a part, delete then write again
+            a.put_many(vec![(base + 6, b"x".to_vec()), (base + 7, b"y".to_vec()), (base + 8, b"z".to_vec())], lv).await.expect("put_many");
+            a.del_many(vec![base + 6, base + 8], lv).await.expect("del_many");
+            b.put(base + 9, b"soon gone".to_vec(), lv).await.expect("put");
+            b.del(base + 9, lv).await.expect("del");
+            b.put(base + 9, b"back again".to_vec(), lv).await.expect("put");
+            ids.extend((1..=9).map(|i| base + i));
+            tokio::time::sleep(Duration::from_millis(300)).await;
+        }
+        // polled for up to 40 s so that a slow machine cannot turn this into a timing verdict
+        let mut finals: Vec<(u64, Vec<Option<(u64, bool, String)>>)> = vec![];
+        for _ in 0..80 {
+            finals.clear();
+            let mut all_equal = true;
+            for id in &ids {
+                let mut row = vec![];
+                for m in &members {
+                    row.push(held_full(m, *id).await);
+                }
+                if row.iter().any(|x| *x != row[0]) || row[0].is_none() {
+                    all_equal = false;
+                }
+                finals.push((*id, row));
+            }
+            if all_equal {
+                break;
+            }
+            tokio::time::sleep(Duration::from_millis(500)).await;
+        }
+        for (id, row) in finals {
+            docs += 1;
+            let equal = row.iter().all(|x| *x == row[0]) && row[0].is_some();
+            writeln!(f, "{}", json!({"ev": "final", "layout": layout, "id": id, "all_equal": equal,
+                "nodes": row.iter().map(|x| match x { Some((ts, tomb, dig)) => json!([ts.to_string(), tomb, dig]), None => json!([]) }).collect::<Vec<_>>()})).unwrap();
+        }
+        drop(members);
+    }
+    f.flush().unwrap();
+    println!("{}", json!({"documents": docs}));
+}
